@@ -15,12 +15,15 @@
                                     T.default{a,o/tiny,p/default}  T.tiny{a}
      G6  T{a,c:U declared with view tiny}   the view named in a parent view overrides the one on the attribute:
                                     T.default{a,c/default}  T.tiny{a}  T.ext{a,c}  (c under ext: the attribute's own view, tiny)
+     G7  collection of T{a,d} with d REQUIRED but absent from view tiny:  default{a,d}  tiny{a}
+     G8  T{a,o:U,p:U,q:U,r:U}       four adjacent attributes of one nested result type, all rendered tiny:
+                                    T.default{a,o/tiny,p/tiny,q/tiny,r/tiny}  T.tiny{a}
 *)
 EXTENDS Integers, Sequences, FiniteSets, TLC
 
 CONSTANTS Deviations
 
-Graphs == {"G1", "G2", "G3", "G4", "G5", "G6"}
+Graphs == {"G1", "G2", "G3", "G4", "G5", "G6", "G7", "G8"}
 \* view table: <<type, view>> -> set of [attr, sub] where sub = "-" for a primitive attribute, else <<type, view>> of the nested rendering
 Prim(a) == [attr |-> a, sub |-> <<"-", "-">>]
 Nest(a, t, v) == [attr |-> a, sub |-> <<t, v>>]
@@ -39,6 +42,12 @@ ViewTable(g, t, v) ==
     [] g = "G6" /\ t = "T" /\ v = "ext"     -> {Prim("a"), Nest("c", "U", "tiny")}
     [] g \in {"G5", "G6"} /\ t = "U" /\ v = "default" -> {Prim("x"), Prim("y")}
     [] g \in {"G5", "G6"} /\ t = "U" /\ v = "tiny"    -> {Prim("x")}
+    [] g = "G7" /\ t = "T" /\ v = "default" -> {Prim("a"), Prim("d")}
+    [] g = "G7" /\ t = "T" /\ v = "tiny"    -> {Prim("a")}
+    [] g = "G8" /\ t = "T" /\ v = "default" -> {Prim("a"), Nest("o", "U", "tiny"), Nest("p", "U", "tiny"), Nest("q", "U", "tiny"), Nest("r", "U", "tiny")}
+    [] g = "G8" /\ t = "T" /\ v = "tiny"    -> {Prim("a")}
+    [] g = "G8" /\ t = "U" /\ v = "default" -> {Prim("x"), Prim("y")}
+    [] g = "G8" /\ t = "U" /\ v = "tiny"    -> {Prim("x")}
     [] g = "G4" /\ t = "T" /\ v = "default" -> {Prim("a"), Nest("n", "T", "tiny")}
     [] g = "G4" /\ t = "T" /\ v = "tiny"    -> {Prim("a")}
     [] OTHER -> {}
@@ -51,6 +60,8 @@ ValueSpace(g) ==
     [] g = "G4" -> {{"a"}, {"a", "n", "n.a"}, {"a", "n", "n.a", "n.n", "n.n.a"}}
     [] g = "G5" -> {{"a"}, {"a", "o", "o.x", "o.y", "p", "p.x", "p.y"}, {"a", "p", "p.x", "p.y"}, {"a", "o", "o.x", "o.y"}, {"a", "o", "o.x", "p", "p.x"}}
     [] g = "G6" -> {{"a"}, {"a", "c", "c.x"}, {"a", "c", "c.x", "c.y"}}
+    [] g = "G7" -> {{"a", "d"}}
+    [] g = "G8" -> {{"a", "o", "o.x", "o.y", "p", "p.x", "p.y", "q", "q.x", "q.y", "r", "r.x", "r.y"}, {"a", "p", "p.x", "p.y", "r", "r.x", "r.y"}}
 
 \* projection: the set of attribute paths of `val` that view (t, v) exposes
 RECURSIVE Proj(_, _, _, _, _, _)
